@@ -4,6 +4,13 @@ pub open spec fn bufinv(sm: &StateMachine) -> bool {
     &&& (sm.painter.plus_lines@.len() > 0 ==> (sm.state is HunkPlus || sm.state is HunkHeader))
     &&& (sm.painter.minus_lines@.len() > 0 ==> (sm.state is HunkMinus || sm.state is HunkPlus || sm.state is HunkHeader))
 }
+/// Well-formedness facts established where the data is created: `Painter::new` creates the line
+/// number data whenever `config.line_numbers` is set; `handle_hunk_header_line` only stores a parsed
+/// hunk header that has at least one coordinate pair (parse_hunk_header returns None otherwise).
+pub open spec fn sm_wf(sm: &StateMachine) -> bool {
+    &&& (sm.config.line_numbers ==> sm.painter.line_numbers_data is Some)
+    &&& (sm.state matches State::HunkHeader(_, p, _, _) ==> p.line_numbers_and_hunk_lengths@.len() >= 1)
+}
 /// Frame: every field of the state machine other than `painter` and `state` is unchanged.
 pub open spec fn sm_frame(a: &StateMachine, b: &StateMachine) -> bool {
     &&& a.line == b.line && a.raw_line == b.raw_line && a.source == b.source && a.config == b.config
